@@ -79,7 +79,9 @@ def run(tape, prop, tier):
     elif flavour == "bitstamp_pub":
         pool = ["live_trades_btcusd", "order_book_btcusd", "live_orders_btcusd", "live_trades_ethusd", "order_book_ethusd"]
     else:
-        pool = ["alpha", "beta", "gamma", "delta", "epsilon"]
+        # basana keeps pending channels in a set of str: varying the names varies the order in which they are subscribed
+        sfx = tape.draw(1000)
+        pool = [f"{n}{sfx}" for n in ["alpha", "beta", "gamma", "delta", "epsilon"]]
     order = list(range(len(pool)))
     for i in range(len(order) - 1):
         j = i + tape.draw(len(order) - i)
